@@ -57,6 +57,29 @@ where
     TimesZ::new(u, v, w)
 }
 
+/// The integers `q` with `q * d = n`.
+enum Quotient {
+    Unique(isize),
+    /// `0 * q = 0` holds for every `q`
+    Any,
+    None,
+}
+
+fn exact_quotient(n: isize, d: isize) -> Quotient {
+    if d == 0 {
+        if n == 0 {
+            Quotient::Any
+        } else {
+            Quotient::None
+        }
+    } else {
+        match (n.checked_rem(d), n.checked_div(d)) {
+            (Some(0), Some(q)) => Quotient::Unique(q),
+            _ => Quotient::None,
+        }
+    }
+}
+
 #[derive(Derivative)]
 #[derivative(Debug(bound = "U: User"), Clone(bound = "U: User"))]
 pub struct TimesZConstraint<U, E>
@@ -122,10 +145,14 @@ where
                 LTermInner::Val(LValue::Number(w)),
             ) => {
                 /* u and w grounded */
-                state
-                    .smap_to_mut()
-                    .extend(vwalk.clone(), LTerm::from(w / u));
-                state.run_constraints()
+                match exact_quotient(*w, *u) {
+                    Quotient::Unique(v) => {
+                        state.smap_to_mut().extend(vwalk.clone(), LTerm::from(v));
+                        state.run_constraints()
+                    }
+                    Quotient::Any => Ok(state.with_constraint(self)),
+                    Quotient::None => Err(()),
+                }
             }
             (
                 LTermInner::Var(_, _),
@@ -133,10 +160,14 @@ where
                 LTermInner::Val(LValue::Number(w)),
             ) => {
                 /* v and w grounded */
-                state
-                    .smap_to_mut()
-                    .extend(uwalk.clone(), LTerm::from(w / v));
-                state.run_constraints()
+                match exact_quotient(*w, *v) {
+                    Quotient::Unique(u) => {
+                        state.smap_to_mut().extend(uwalk.clone(), LTerm::from(u));
+                        state.run_constraints()
+                    }
+                    Quotient::Any => Ok(state.with_constraint(self)),
+                    Quotient::None => Err(()),
+                }
             }
             (LTermInner::Var(_, _), LTermInner::Var(_, _), LTermInner::Var(_, _))
             | (LTermInner::Var(_, _), LTermInner::Var(_, _), LTermInner::Val(LValue::Number(_)))
